@@ -39,7 +39,7 @@ CutWF(x) == IF x = <<>> THEN <<>> ELSE IF IsT(Head(x)) THEN <<Head(x)>> ELSE <<H
 WellFormed(x) == \A i \in 1..Len(x) : IsT(x[i]) => i = Len(x)
 
 \* ---------------------------------------------------------------- integer codecs shared with the harness
-RObsBase == 100000
+RObsBase == 100000000
 RECURSIVE REncList(_)
 REncList(xs) == IF xs = <<>> THEN 1 ELSE REncList(SubSeq(xs, 1, Len(xs) - 1)) * 10 + xs[Len(xs)]
 RApplyF(f, p, x) == CASE f = "inc" -> x + p [] f = "mul" -> x * p [] f = "const" -> p [] f = "mod" -> x % p [] OTHER -> x
